@@ -278,14 +278,25 @@ def crule(r):
                caddr(r["src"]), cplist(r["sports"]), caddr(r["dst"]), cplist(r["dports"])))
 
 
-def cspacing(sp):
+def cspacing(sp, r=None):
+    """the spacing as a Coq term; entries the rule does not use are left out (defaults: one blank, no zeros)"""
+    ntok = 8 + (1 if r and r["sports"] else 0) + (1 if r and r["dports"] else 0) if r else 10
+    ns, nd = (len(r["sports"]), len(r["dports"])) if r else (8, 8)
+    gaps = sp["gaps"][:ntok - 1]
+    zs, zd = sp["z_sports"][:ns], sp["z_dports"][:nd]
+    if (not sp["lead"] and not sp["trail"] and all(g == ["WSP"] for g in gaps) and not sp["z_proto"] and not sp["z_slen"]
+            and not sp["z_dlen"] and not any(a or b for a, b in zs + zd)):
+        return "sp_plain"
+
     def zz(l):
-        return clist(["(%d%%nat, %d%%nat)" % (a, b) for a, b in l])
-    gaps = clist(["(%s, %s)" % (g[0], clist(g[1:])) for g in sp["gaps"]])
-    return ("{| sp_lead := %s; sp_trail := %s; sp_gap := fun i => nth i %s (WSP, []); z_proto := %d%%nat; z_slen := %d%%nat; "
-            "z_dlen := %d%%nat; z_sports := %s; z_dports := %s |}"
-            % (clist(sp["lead"]), clist(sp["trail"]), gaps, sp["z_proto"], sp["z_slen"], sp["z_dlen"],
-               zz(sp["z_sports"]), zz(sp["z_dports"])))
+        while l and l[-1] == [0, 0]:
+            l = l[:-1]
+        return clist(["(%d, %d)" % (a, b) for a, b in l])
+    while gaps and gaps[-1] == ["WSP"]:
+        gaps = gaps[:-1]
+    return ("(mksp %s %s %s %d %d %d %s %s)"
+            % (clist(sp["lead"]), clist(sp["trail"]), clist(["g1" if g == ["WSP"] else "(%s, %s)" % (g[0], clist(g[1:])) for g in gaps]),
+               sp["z_proto"], sp["z_slen"], sp["z_dlen"], zz(zs), zz(zd)))
 
 
 def norm_pairs(p):
@@ -327,7 +338,7 @@ def coq_case(c, r):
         idc = "None"
     exp = "None"
     if c.get("rule") is not None:
-        exp = "(Some (%s, %s))" % (crule(c["rule"]), cspacing(c["sp"]))
+        exp = "(Some (%s, %s))" % (crule(c["rule"]), cspacing(c["sp"], c["rule"]))
     return "(mkc %s %s %s %s %s %s)" % (ctext(bytes.fromhex(c["s"])), "true" if c["swap"] else "false", ip, ia, idc, exp)
 
 
@@ -335,6 +346,13 @@ PRELUDE = r"""
 Inductive iparse := IPok (f : fdesc) | IPerr | IPpanic.
 Inductive iattrs := IAok (al : list attr) | IAerr | IApanic.
 Record case := mkc { c_s : text; c_up : bool; c_p : iparse; c_a : iattrs; c_d : option dfilter; c_r : option (rule * spacing) }.
+
+Definition g1 : ws * list ws := (WSP, []).
+Definition znat (l : list (N * N)) : list (nat * nat) := map (fun p => (N.to_nat (fst p), N.to_nat (snd p))) l.
+Definition mksp (lead trail : list ws) (gaps : list (ws * list ws)) (zp zs zd : N) (zsp zdp : list (N * N)) : spacing :=
+  {| sp_lead := lead; sp_trail := trail; sp_gap := fun i => nth i gaps g1;
+     z_proto := N.to_nat zp; z_slen := N.to_nat zs; z_dlen := N.to_nat zd; z_sports := znat zsp; z_dports := znat zdp |}.
+Definition sp_plain : spacing := mksp [] [] [] 0 0 0 [] [].
 
 (* model = implementation ? *)
 Definition agrees (c : case) : bool :=
@@ -392,7 +410,7 @@ def evaluate_chunk(ctx, cases, impl, name):
     return (common.parse_N_list(res["mism"]), common.parse_N_list(res["monf"]), common.parse_N_list(res["unmo"]), log)
 
 
-def evaluate(ctx, cases, impl, name, chunk=1500, workers=12):
+def evaluate(ctx, cases, impl, name, chunk=500, workers=16):
     jobs = []
     for k, start in enumerate(range(0, len(cases), chunk)):
         jobs.append((start, cases[start:start + chunk], impl[start:start + chunk], "%s_%d" % (name, k)))
